@@ -90,27 +90,28 @@ func jsonVal(sb *strings.Builder, v any) {
 
 // M is a pool of element and scalar variables plus the trace being written.
 type M struct {
-	E        []*secp256k1.Element
-	S        []*secp256k1.Scalar
-	w        *bufio.Writer
-	rng      *rand.Rand
-	events   int
-	hist     int            // histories (Reset events)
-	classes  map[string]int // untrusted class histogram, reported next to the trace
-	rootMemo map[string][2]any
-	prop     string
-	perFile  int // events per shard file
-	files    []string
-	dir      string
-	shard    int
-	inShard  int
-	raw      bool // accessor available
-	prefix   string
+	E                []*secp256k1.Element
+	S                []*secp256k1.Scalar
+	w                *bufio.Writer
+	rng              *rand.Rand
+	events           int
+	hist             int            // histories (Reset events)
+	classes          map[string]int // untrusted class histogram, reported next to the trace
+	rootMemo         map[string][2]any
+	prop             string
+	perFile          int // events per shard file
+	giants, giantMax int // calls with a >= 64 KiB tag made / allowed in this run
+	files            []string
+	dir              string
+	shard            int
+	inShard          int
+	raw              bool // accessor available
+	prefix           string
 }
 
 func newMachine(dir, prop string, seed int64, ne, ns int) *M {
 	m := &M{rng: rand.New(rand.NewSource(seed)), classes: map[string]int{}, rootMemo: map[string][2]any{},
-		prop: prop, dir: dir, perFile: 1 << 30, raw: secp256k1.VerifAccessor}
+		prop: prop, dir: dir, perFile: 1 << 30, raw: secp256k1.VerifAccessor, giantMax: 2}
 	learnScalarErrors()
 	m.E = make([]*secp256k1.Element, ne)
 	m.S = make([]*secp256k1.Scalar, ns)
